@@ -111,7 +111,7 @@ class C06:
             vt = rm.vtuple(key)
             magic_int = self.magics[key]
             is_pypy = False
-            if vt >= (2, 1):
+            if vt >= (2, 0):
                 marker = ["i", str(case["marker"])]
                 tree = rm.template_code_tree(key, ["T", [marker, ["N"]]])
                 payload, _ = rm.encode(tree, key)
